@@ -34,7 +34,8 @@ SEGS = ['a', 'a?b', '#', '%', '%41', 'a b', 'a;b=c', 'a&b=c', u'\xe9', '.', '..'
 SEGS2 = ['a', 'a?b', '%41']
 QUERIES = ['', 'x=1', 'x=%3F&y=a+b', u'\xe9=1'.encode('utf-8').decode('latin-1'), u'\xe9=1', 'a=%C3%A9&&b']
 ALL_METHODS = ['GET', 'HEAD', 'POST', 'PUT', 'DELETE', 'OPTIONS', 'TRACE', 'CONNECT', 'PATCH']
-SHAPES = ['static', 'single', 'multi', 'typed', 'dotted', 'root']
+SHAPES = ['static', 'single', 'multi', 'typed', 'dotted', 'root', 'file']
+# file: a StaticFileRoute (the stock route type serving one file) under a leaf or a branch pattern
 # root: the pattern '/' of an embedded application - under the prefix it is the branch route '/pre/'
 # dotted: a literal segment containing a regular-expression metacharacter.  Whether '/x/v1-0' reaches the route
 # '/x/v1.0' is outside C05's quantifier (observation O1: literals are not escaped); C07 only asks that *if* it reaches
@@ -51,14 +52,14 @@ def deadline_passed():
 def pattern_for(shape, branch):
     if shape == 'root':
         return '/'
-    base = {'static': '/x', 'single': '/x/<a>', 'multi': '/x/<a+>', 'typed': '/n/<k:int>/t', 'dotted': '/x/v1.0'}[shape]
+    base = {'static': '/x', 'file': '/x', 'single': '/x/<a>', 'multi': '/x/<a+>', 'typed': '/n/<k:int>/t', 'dotted': '/x/v1.0'}[shape]
     return base + ('/' if branch else '')
 
 
 def seg_tuples(shape, tier):
     if shape == 'root':
         return [[]]
-    if shape == 'static':
+    if shape in ('static', 'file'):
         return [['x']]
     if shape == 'single':
         return [['x', s] for s in SEGS]
@@ -104,7 +105,9 @@ def configs():
                 for placement in PLACEMENTS:
                     if shape == 'root' and (not branch or not placement.startswith('embed')):
                         continue
-                    for methods in (None, ['GET']):
+                    if shape == 'file' and placement in ('route', 'cline'):
+                        continue
+                    for methods in ((None,) if shape == 'file' else (None, ['GET'])):
                         out.append((shape, branch, mode, placement, methods))
     return out
 
@@ -134,10 +137,20 @@ class Harness(object):
         other = common.fresh_str(MODES[(MODES.index(mode) + 1) % 3])
         mode = common.fresh_str(mode)        # equal to clastic's constant, not the same object
         pat = pattern_for(shape, branch)
-        ep = self.eps[shape]
+        ep = self.eps.get(shape)
+        mkroute = Route
+        if shape == 'file':
+            from clastic.static import StaticFileRoute
+            seen = self.seen
+
+            class TracedFile(StaticFileRoute):
+                def get_file_response(self, request):
+                    seen.append({})
+                    return super(TracedFile, self).get_file_response(request)
+            mkroute = lambda pat, ep, methods=None: TracedFile(pat, os.path.abspath(__file__))
         if placement == 'app':
             # the Route object has been bound before, into an application with another slash mode
-            rt = Route(pat, ep, methods=methods)
+            rt = mkroute(pat, ep, methods=methods)
             Application([rt], slash_mode=other)
             Application([('/', Application([rt], slash_mode=MODES[(MODES.index(cfg[2]) + 2) % 3]))], slash_mode=other)
             return Application([rt], slash_mode=mode), ''
@@ -152,10 +165,10 @@ class Harness(object):
             app.route(pat, tuple(methods) if methods else None, ep)
             return app, ''
         if placement == 'embed-inherit':
-            inner = Application([Route(pat, ep, methods=methods)], slash_mode=other)
+            inner = Application([mkroute(pat, ep, methods=methods)], slash_mode=other)
             return Application([('/pre', inner)], slash_mode=mode), '/pre'
         if placement == 'embed-own':
-            inner = Application([Route(pat, ep, methods=methods)], slash_mode=mode)
+            inner = Application([mkroute(pat, ep, methods=methods)], slash_mode=mode)
             return Application([SubApplication('/pre', inner, inherit_slashes=False)], slash_mode=other), '/pre'
         raise ValueError(placement)
 
@@ -203,7 +216,12 @@ def check_request(acc, h, app, cfg, prefix, segs, defect, query, method, sigkey,
     exp, eff = expected(cfg, prefix, raw_path, method, literal)
     case = {'cfg': list(cfg), 'segs': segs, 'defect': defect, 'query': query, 'method': method, 'script_name': script_name}
     del h.seen[:]
-    if script_name == '<dev-server>':
+    if script_name == '<dev-server-abs>':
+        # absolute-form request target (GET http://localhost/path): the target names the origin, whatever the Host
+        # header of the proxy hop says (RFC 7230 5.4)
+        script_name = ''
+        env0 = wsgi.dev_server_environ(raw_path, method, query, absolute_form=True, headers={'Host': 'proxy.example:3128'})
+    elif script_name == '<dev-server>':
         # the request line goes through clastic's own development server code (its request handler builds the environ)
         script_name = ''
         env0 = dev_server_environ(raw_path, method, query)
@@ -395,6 +413,8 @@ def shard(tier, i, n, seed):
                 # its first segment becomes the host - such a request does not reach the route, outside C07)
                 if query in ('', 'x=1', 'x=%3F&y=a+b', 'a=%C3%A9&&b') and defect != 'leading-double':
                     check_request(acc, h, app, cfg, prefix, segs, defect, query, 'GET', sigkey, '<dev-server>')
+                    if query in ('', 'x=1'):
+                        check_request(acc, h, app, cfg, prefix, segs, defect, query, 'GET', sigkey, '<dev-server-abs>')
         if wi == 0:
             check_history(acc, h)
         if wi % 41 == 0:
@@ -407,7 +427,7 @@ def space_size(tier):
     total = 0
     for cfg in configs():
         total += len(DEFECTS) * len(seg_tuples(cfg[0], tier)) * (len(QUERIES) * len(ALL_METHODS) + 2)
-        total += (len(DEFECTS) - 1) * len(seg_tuples(cfg[0], tier)) * 4       # through the development server code
+        total += (len(DEFECTS) - 1) * len(seg_tuples(cfg[0], tier)) * 6       # through the development server code
     return total + 120 * 4
 
 
